@@ -341,6 +341,31 @@ def gen():
                 raise F.FactError("Morpheme accessor changed: %s" % needle[:40])
         return "(%s)%%Z" % m.group(1)
     fact("oov_dictionary_id", "Z", "(-1)%Z", dict_id)
+
+    # ---- which files the definitions are read from: both files of the MeCab provider and the dictionary's
+    # characterDefinitionFile go through Config::complete_path (Model/PathResolve.v, Generated/PathResolveFacts.v); the plugin has
+    # no search order of its own and opens exactly the two resolved paths
+    def mecab_files():
+        su = norm(F.strip_comments(F.fn_body(F.src(MECAB), "set_up", MECAB)))
+        consts = dict(re.findall(r'const (DEFAULT_\w+_FILE): &str = "([^"]+)";', norm(F.strip_comments(F.src(MECAB)))))
+        res = []
+        for key in ("charDef", "unkDef"):
+            m = re.search(r"let (\w+) = config\.complete_path\( ?settings ?\.%s ?\.unwrap_or_else\(\|\| PathBuf::from\((\w+)\)\), \)\?; let reader = BufReader::new\(fs::File::open\(&\1\)\?\);" % key, su)
+            if not m or m.group(2) not in consts:
+                raise F.FactError("MeCabOovPlugin::set_up: %s is no longer `config.complete_path(settings.%s or the default name)` opened as it is" % (key, key))
+            res.append((key, "complete_path:" + consts[m.group(2)]))
+        if len(re.findall(r"File::open\(", su)) != 2 or re.search(r"\.join\(|read_dir|current_dir|env::", su):
+            raise F.FactError("MeCabOovPlugin::set_up opens other files / builds paths of its own")
+        return coq_pairs(res)
+    out.append("(* MeCabOovPlugin::set_up: how the two definition files are located (setting, resolution:default name) *)\n")
+    fact("mecab_definition_files", "list (string * string)", coq_pairs([("charDef", "complete_path:char.def"), ("unkDef", "complete_path:unk.def")]), mecab_files)
+
+    def chardef_file():
+        d = norm(F.strip_comments(F.fn_body(F.src("sudachi/src/dic/dictionary.rs"), "from_cfg_storage", "dictionary.rs")))
+        if "LoadedDictionary::from_system_dictionary( unsafe { storage.system_static_slice() }, cfg.complete_path(&cfg.character_definition_file)?.as_path(), )?" not in d:
+            raise F.FactError("from_cfg_storage: characterDefinitionFile is no longer resolved by cfg.complete_path")
+        return '"complete_path"'
+    fact("character_definition_file_resolution", "string", '"complete_path"', chardef_file)
     out.append("(* facts whose source shape was not recognised (replaced above by the value the property statement assumes) *)\n")
     out.append("Definition unrecognised : list string := [%s].\n" % "; ".join('"%s"' % b for b in bad))
     return "".join(out)
